@@ -2,8 +2,13 @@
    The theorem is structural (the model is a function and needs no store);
    its tie to /repo is the generated inventory of module-level state (an
    obligation re-proved on every run) and the differential history check of
-   harness/props/c17.py, including requests to one --as-server process. *)
-From YV Require Import PyBase Globals History HistoryProofs.
+   harness/props/c17.py, including requests to one --as-server process.
+   One statement about the parser object itself (C17_class_document_frame):
+   a document of the class of C02 leaves every component of the parser state
+   as it was, except that undeclared names are appended to the list of
+   unknowns -- so the result for the next document of the class does not
+   depend on it. *)
+From YV Require Import PyBase PState Parser Exec ExecArgs ClassDecide Catalogue Globals History HistoryProofs.
 
 Theorem C17_globals_are_classified : forallb classified module_globals = true.
 Proof. exact globals_are_classified. Qed.
@@ -17,3 +22,13 @@ Theorem C17_independent : forall (G A R : Type) (f : A -> R) (g : G) (h : list A
 Proof. exact history_independent. Qed.
 Print Assumptions C17_frame.
 Print Assumptions C17_independent.
+
+Theorem C17_class_document_frame : forall rd fuel st latex r,
+  doc_in_class py_tables st latex = true ->
+  parser_work py_tables (exec py_tables rd fuel) st latex = Ok r ->
+  fst r = upd_unknowns st (unknowns (fst r)).
+Proof.
+  exact (fun rd fuel st latex r Hd Hp =>
+           proj1 (parser_work_class_frame py_tables rd (eq_refl true) fuel st latex r Hd Hp)).
+Qed.
+Print Assumptions C17_class_document_frame.
